@@ -374,6 +374,7 @@ def run_deletes(w, state0, plan):
         cache = w.db._get_cache()
         loaded = {}
         def get(i):
+            if i >= len(w.ents): return None          # plan of a shrinking candidate that lost the object
             if i not in loaded: loaded[i] = w.classes[w.ents[i]].get(id=w.pks[i])
             return loaded[i]
         ident = {(w.classes[e].__name__, pk): i for i, (e, pk) in enumerate(zip(w.ents, w.pks))}
@@ -426,8 +427,8 @@ def flat_plan(w, state, plan):
     """the sequence of `_delete_` targets a plan amounts to (query deletes fetch in primary-key order = creation order)"""
     out = []
     for st in plan:
-        if st[0] == 'obj': out.append([st[1]])
-        else: out.append(sorted(i for i in st[2] if w.ents[i] == st[1]))
+        if st[0] == 'obj': out.append([st[1]] if st[1] < len(w.ents) else [])
+        else: out.append(sorted(i for i in st[2] if i < len(w.ents) and w.ents[i] == st[1]))
     return out
 
 
